@@ -19,3 +19,4 @@ try:
     json.dump(meta, open(d + "/meta.json", "w"), indent=1)
 finally:
     subprocess.run(["git", "-C", "/repo", "checkout", "--", "."])
+    subprocess.run(["git", "-C", "/verif", "checkout", "--", "evidence"])  # evidence written against a changed tree is not kept
